@@ -24,6 +24,7 @@ def main():
     tier = sys.argv[2] if len(sys.argv) > 2 else os.environ.get("VERIF_TIER", "quick")
     if tier not in ("quick", "thorough"):
         tier = "quick"
+    os.environ["VERIF_TIER"] = tier
     chk = vlib.Check(pid, tier)
     try:
         mod.run(chk)
